@@ -45,7 +45,9 @@ def cases(draw, tier):
             "seed": draw(st.integers(0, 10**6)), "start": draw(st.sampled_from(["generic", "generic", "eigvec", "grade"])),
             "g": draw(st.integers(1, n)), "max_iters": draw(st.integers(1, n + 5)), "tol_exp": draw(st.sampled_from([-12, -10, -8, -6, -3])),
             "batch": draw(st.integers(2, 3)), "mixed": draw(st.booleans()),
-            "vscale_exp": draw(st.sampled_from([0, 0, 0, 0, -20, -12, -30, 6, 12]))}
+            "vscale_exp": draw(st.sampled_from([0, 0, 0, 0, -20, -12, -30, 6, 12])),
+            # tol = 0 (never stop early): only with generic start vectors, whose Krylov space is all of C^n
+            "tol_zero": draw(st.integers(1, 5)) == 1}
 
 
 def strategy(tier):
@@ -181,6 +183,9 @@ def check(case, out):
     A, M, vs = build(case)
     n = case["n"]
     tol = 10.0 ** case["tol_exp"]
+    if case.get("tol_zero") and case["start"] == "generic" and case["spec"] in ("simple", "indefinite") and case["op"] in ("dense", "kron"):
+        tol = 0.0
+        out.label("tol:0")
     mi = case["max_iters"]
     scale = max(1.0, np.abs(M).max())
     out.label("sub:" + sub, "op:" + case["op"], "spec:" + case["spec"], "start:" + case["start"], "complex" if np.iscomplexobj(M) else "real",
